@@ -461,6 +461,11 @@ pub mod r#async {
         fn put_buffer<'a>(&'a mut self, buffer: &'a [u8]) -> PutBuffer<'a, Self>;
     }
 
+    /// Verification harnesses with access to the private state of the leaf futures (only under `cargo kani`).
+    #[cfg(kani)]
+    #[path = "/verif/kani/proto/in_bytes_async.rs"]
+    pub(crate) mod verif_kani;
+
     /// [`Future`] for reading a varint.
     ///
     /// Created by [`BytesReaderAsync::get_varint`].
